@@ -18,7 +18,7 @@
             (2 strict prog (pos..) mutation)-> (base_ok injected mutant_ok mutant_prog)               inject
             (3 value type)                  -> (has_ty)                                               C34 judge
             (4 typeA typeB)                 -> (A<:B B<:A)
-            (5 prog)                        -> (lax_ok strict_ok Known_C02)
+            (5 prog)                        -> (lax_ok strict_ok known_pow known_ifarith)
             (6 strict prog x)               -> (class)  known_c34 of the defining expression of top-level binding x
             (7 accepted executed)           -> (judge_c05)
             (8 class)                       -> (judge_c02)  class: 0 none 4 TypeError 5 wrapper ValueError 7 NameError
@@ -271,7 +271,7 @@ Definition run (x : sx) : sx :=
     end
   | SL [SZ 5; p] =>
     match dec_prog p with
-    | Some pr => SL [sx_bool (typecheck false pr); sx_bool (typecheck true pr); sx_bool (Known_C02 pr)]
+    | Some pr => SL [sx_bool (typecheck false pr); sx_bool (typecheck true pr); sx_bool (known_pow pr); sx_bool (known_ifarith pr)]
     | None => bad
     end
   | SL [SZ 7; SZ a; SZ e] => SL [sx_bool (judge_c05 (negb (a =? 0)) (negb (e =? 0)))]
